@@ -992,6 +992,28 @@ func (c *Ctx) initGlobal(p *Proc, o *types.Var, name string, s Sort) {
 				}
 			}
 		}
+	case *ast.CompositeLit:
+		// struct value with constant fields
+		typ := info.TypeOf(x)
+		if stt, ok := typ.Underlying().(*types.Struct); ok && !opaqueStruct(typ) {
+			ds := c.sortOf(typ)
+			for _, el := range x.Elts {
+				kv, ok := el.(*ast.KeyValueExpr)
+				if !ok {
+					continue
+				}
+				fname := kv.Key.(*ast.Ident).Name
+				for i := 0; i < stt.NumFields(); i++ {
+					f := stt.Field(i)
+					if f.Name() != fname {
+						continue
+					}
+					if tv, ok := info.Types[kv.Value]; ok && tv.Value != nil {
+						c.addAxiom(name, fmt.Sprintf("(assert (= (%s_%s %s) %s))", ds, f.Name(), name, constToTerm(c, tv.Value, f.Type()).S))
+					}
+				}
+			}
+		}
 	case *ast.Ident, *ast.SelectorExpr:
 		// alias of another global
 		var obj types.Object
